@@ -1,4 +1,5 @@
 import UtilModel.Core.LTSHash
+import UtilModel.Core.LTSComplete
 import UtilModel.Once.Sim
 /-!
 # Once — end-to-end transfer
@@ -13,5 +14,40 @@ theorem C16_accepted_once (cap fuel : Nat) (h : List Once.Obs)
     (ha : Once.model.acceptsH cap fuel h = true) : Once.monC16.accepts h = true :=
   acceptedH_satisfies Once.model (fun h => Once.monC16.accepts h = true)
     Once.C16_obs_once cap fuel h ha
+
+end UtilModel
+
+/-! ## completeness of the candidate lists — a REJECT is about the model -/
+namespace UtilModel
+
+/-- every enabled internal event of the Once model is in its candidate list -/
+theorem Once.cands_complete (s s' : Once.St) (e : Once.Ev) (hs : Once.step s e = some s')
+    (ho : e.obs = none) : e ∈ Once.model.cands s := by
+  show e ∈ Once.internalCands s
+  unfold Once.internalCands
+  cases e <;> simp [Once.Ev.obs] at ho <;> simp only [Once.step] at hs
+  all_goals
+    split at hs <;> try simp at hs
+    rename_i h
+    have hlt := lt_of_getElem? h
+    simp only [List.mem_append, List.mem_flatMap, List.mem_range]
+    first
+      | exact Or.inl ⟨_, hlt, by cases ‹Once.Branch› <;> simp⟩
+      | exact Or.inl ⟨_, hlt, by simp⟩
+      | exact Or.inr ⟨_, hlt, by simp⟩
+
+theorem Once.Ev.obs_evs (e : Once.Ev) (o : Once.Obs) (h : e.obs = some o) : e ∈ o.evs := by
+  cases e <;> simp [Once.Ev.obs] at h <;> subst h <;> simp [Once.Obs.evs]
+
+theorem complete_once : Once.model.Complete :=
+  ⟨fun s e s' hs ho => Once.cands_complete s s' e hs ho,
+   fun _ e _ o _ ho => Once.Ev.obs_evs e o ho⟩
+
+/-- **A REJECT of the Once correspondence is about the model.** -/
+theorem reject_sound_once (cap fuel : Nat) (h : List Once.Obs) (i : Nat)
+    (hfail : (Once.model.accRunH cap fuel [Once.model.init] h 0 false 1).failedAt = some i)
+    (htr : (Once.model.accRunH cap fuel [Once.model.init] h 0 false 1).truncated = false) :
+    ¬ ∃ es s, Once.model.run Once.model.init es = some s ∧ es.filterMap Once.model.obs = h :=
+  rejectH_sound Once.model complete_once cap fuel h i hfail htr
 
 end UtilModel
